@@ -5,7 +5,7 @@ LEVEL = "proof"
 LEAN_MODULES = ["FsDb.Properties.C06"]
 TIES = seqprop.SEQ_TIES
 TRUSTED_BASE = seqprop.SEQ_TRUSTED + [
-    "small-step model FsDb/Model/Conc.lean (hand-written): one step = one critical section under a lock of usecase/core or the registry / one Badger access / one file operation; three contractions (in-flight content under a private id; Commit/Rollback's registry removal + UpdateTx/DeleteTx one step; Begin's draw + registration one step); one goroutine per transaction; Go sync primitives as in DESIGN §6 (modelled)",
+    "small-step model FsDb/Model/Conc.lean (hand-written): one step = one critical section under a lock of usecase/core or the registry / one Badger access / one file operation; Commit/Rollback are two steps (txRepo.Delete, then UpdateTx/DeleteTx; in between the collector's horizon ignores the transaction); two contractions (in-flight content under a private id; Begin's draw + registration one step, both under the horizon mutex); the registry record of a transaction inside Commit stays in the model state as a ghost; one goroutine per transaction; Go sync primitives as in DESIGN §6 (modelled)",
     "tie of the step granularity: skeleton texts, linearizability of every enforced run against Spec.Iso, step-by-step replay of every enforced run in the small-step model (hook points = program counters; the uncontrolled worker pool is placed by search), free-running stress with specification-derived oracles",
     "hook scheduler (harness/overlay/inline_db/zz_verif_conc_test.go): schedules are enforced only at the verif hook points and operation boundaries; windows without a hook are reached by the stress only",
 ]
